@@ -23,6 +23,10 @@ class PType:
         self.kind, self.name, self.mode = kind, name, mode
 
     def iface(self):
+        if self.kind == "tparam":
+            return {"val": "T", "cref": "const T &"}[self.mode]
+        if self.kind == "this":
+            return {"val": "This", "cref": "const This &", "sptr": "This *"}[self.mode]
         n = self.name if self.kind != "eig" else "gtsam::" + self.name
         if self.kind == "class":
             return {"val": n, "cref": "const %s &" % n, "ref": n + " &", "sptr": n + " *", "rptr": n + " @"}[self.mode]
@@ -32,6 +36,10 @@ class PType:
 
     def cpp(self):
         """spelling in the library declaration"""
+        if self.kind == "tparam":
+            return {"val": "T", "cref": "const T&"}[self.mode]
+        if self.kind == "this":      # self.name = template name; inside the template body
+            return {"val": "%s<T>", "cref": "const %s<T>&", "sptr": "std::shared_ptr<%s<T>>"}[self.mode] % self.name
         n = self.name if self.kind != "eig" else "gtsam::" + self.name
         if self.kind == "prim" and self.name == "string":
             n = "std::string"
@@ -74,6 +82,25 @@ class PClass:
         return ".".join(self.ns + [self.name])
 
 
+class PTemplate:
+    """template<T = {insts}> class name { generic members }; instantiated views are PClass objects"""
+
+    def __init__(self, name, ns, insts):
+        self.name, self.ns, self.insts = name, ns, insts
+        self.ctors, self.methods, self.statics, self.props = [], [], [], []
+        self.views = []
+
+    @property
+    def qname(self):
+        return "::".join(self.ns + [self.name])
+
+
+def inst_suffix(ty):
+    """what gtwrap's instantiate_name appends: the type's own name (no namespaces), first letter upper-cased"""
+    n = ty.name.split("::")[-1]
+    return n[0].upper() + n[1:]
+
+
 class PEnum:
     def __init__(self, name, ns, values, owner=None):
         self.name, self.ns, self.values, self.owner = name, ns, values, owner
@@ -90,6 +117,7 @@ class PEnum:
 class Program:
     def __init__(self):
         self.classes, self.functions, self.enums = [], [], []   # functions: (ns, PFunc)
+        self.templates = []
         self.module = "prog"
 
     def class_by_q(self, q):
@@ -271,8 +299,12 @@ class ProgGen:
             for _ in range(t.small(2, "nprop", p=0.4)):
                 # property names are unique per program: MATLAB forbids redefining an inherited property
                 pn = self.fresh(PROPN)
-                pt = t.wpick([(PType("prim", "int"), 2), (PType("prim", "double"), 2), (PType("prim", "string"), 1),
-                              (PType("eig", "Vector"), 1), (PType("prim", "bool"), 1)], "ptype")
+                popts = [(PType("prim", "int"), 2), (PType("prim", "double"), 2), (PType("prim", "string"), 1),
+                         (PType("eig", "Vector"), 1), (PType("prim", "bool"), 1)]
+                others = [k for k in self.p.classes if k is not c and k.ctors and not k.parent]
+                if others and self.f.get("class_props", True):
+                    popts.append((PType("class", t.pick(others, "prop-class").qname, "val"), 1.5))
+                pt = t.wpick(popts, "ptype")
                 c.props.append((pn, pt))
         return c
 
@@ -283,6 +315,8 @@ class ProgGen:
         cur_ns = []
         for _ in range(nunits):
             ns = [t.pick(NSN, "ns")] if t.bool(0.4, "in-ns") else []
+            if ns and t.bool(0.25, "nested-ns"):
+                ns = ns + [t.pick(["inner", "detail"], "ns2")]
             k = t.wpick([("class", 6), ("func", 3), ("enum", 1)], "unit")
             if k == "class" or not p.classes:
                 self.gen_class(ns)
@@ -349,6 +383,68 @@ class ProgGen:
                                const=True))
         c.statics.append(PFunc("static", "Default", PType("enum", ce.qname), []))
 
+    def force_template(self):
+        """a class template with an instantiation list; its instantiations are ordinary classes for the session"""
+        t = self.t
+        ns = [t.pick(NSN, "ns")] if t.bool(0.6, "tpl-ns") else []
+        item = None
+        plain = [k for k in self.p.classes if not k.parent and not k.virtual and k.ctors and not getattr(k, "tpl", None)]
+        if plain and t.bool(0.6, "tpl-class-inst"):
+            item = t.pick(plain, "tpl-item")
+        pool = [PType("prim", "double"), PType("prim", "int"), PType("eig", "Point2"), PType("eig", "Vector")]
+        insts = t.shuffle(pool, "tpl-insts")[:1 + t.choose(3, "tpl-ninst")]
+        if item is not None:
+            insts.append(PType("class", item.qname, "val"))
+        tpl = PTemplate(self.fresh(["Box", "Slot", "Cell", "Wrap"]), ns, insts)
+        T = lambda mode="val": PType("tparam", "T", mode)
+        TH = lambda mode="val": PType("this", tpl.name, mode)
+        tpl.ctors.append(PFunc("ctor", tpl.name, None, [PArg(T(), "v")]))
+        tpl.ctors.append(PFunc("ctor", tpl.name, None, []))
+        tpl.methods.append(PFunc("method", "get", T(), [], const=True))
+        tpl.methods.append(PFunc("method", "set", PType("prim", "void"), [PArg(T("cref"), "v"),
+                                                                      PArg(PType("prim", "int"), "n", ("7", 7))]))
+        # `This` inside a class template: on the pinned tree MatlabWrapper spells a `This` ARGUMENT with the
+        # C++ name (isa(x,'geo.Box<double>'), "ptr_geoBox<double>") and a `This` RETURN of an instantiation
+        # with a lower-case type name as "geo.Boxdouble" -- neither names the generated class (known finding
+        # of C11).  The default profile keeps to what works; the `thisargs` program exercises the rest.
+        lower = any(i.name[:1].islower() for i in insts)
+        if self.f.get("this_args"):
+            tpl.methods.append(PFunc("method", "merge", TH(t.pick(["val", "sptr"], "tpl-merge-ret")),
+                                     [PArg(TH("cref"), "other")], const=True))
+        tpl.methods.append(PFunc("method", "mix", self.ret_type(False), self.args(2, allow_class=False)))
+        if self.f.get("this_args") or not lower:
+            tpl.statics.append(PFunc("static", "Make", TH(t.pick(["val", "sptr"], "tpl-make-ret")), [PArg(T(), "v")]))
+        else:
+            tpl.statics.append(PFunc("static", "Make", T(), [PArg(T(), "v")]))
+        if all(i.kind != "class" for i in insts):
+            tpl.props.append((self.fresh(PROPN), T()))
+        self.p.templates.append(tpl)
+        for inst in insts:
+            v = PClass(tpl.name + inst_suffix(inst), ns)
+            v.tpl, v.inst = tpl, inst
+            v.cpp_qname = "%s<%s>" % (tpl.qname, inst.name if inst.kind != "eig" else "gtsam::" + inst.name)
+
+            def sub(ty, _v=v, _inst=inst):
+                if isinstance(ty, tuple):
+                    return (ty[0], sub(ty[1]), sub(ty[2]))
+                if ty is None:
+                    return None
+                if ty.kind == "tparam":
+                    mode = ty.mode if _inst.kind in ("class", "eig") else "val"
+                    return PType(_inst.kind, _inst.name, mode)
+                if ty.kind == "this":
+                    return PType("class", _v.qname, ty.mode)
+                return ty
+            for src, dst in ((tpl.ctors, v.ctors), (tpl.methods, v.methods), (tpl.statics, v.statics)):
+                for f in src:
+                    g = PFunc(f.kind, v.name if f.kind == "ctor" else f.name, sub(f.ret),
+                              [PArg(sub(a.ty), a.name, a.default) for a in f.args], const=f.const)
+                    g.generic = f
+                    dst.append(g)
+            v.props = [(pn, sub(pt)) for pn, pt in tpl.props]
+            tpl.views.append(v)
+            self.p.classes.append(v)
+
     def force_objargs(self):
         t = self.t
         ns = [t.pick(NSN, "ns")] if t.bool(0.5, "oa-ns") else []
@@ -385,7 +481,20 @@ def _assign_entities(p):
         n[0] += 1
         f.entity = "%s#%d" % (prefix, n[0])
 
+    for tp in p.templates:
+        for i, f in enumerate(tp.ctors):
+            n[0] += 1
+            f.entity_suffix, f.overload = "::%s#%d" % (tp.name, n[0]), i
+        for group in (tp.methods, tp.statics):
+            for i, f in enumerate(group):
+                n[0] += 1
+                f.entity_suffix, f.overload = "::%s#%d" % (f.name, n[0]), i
     for c in p.classes:
+        if getattr(c, "tpl", None) is not None:
+            for f in c.ctors + c.methods + c.statics:
+                f.entity = c.qname + f.generic.entity_suffix
+                f.overload = f.generic.overload
+            continue
         for i, f in enumerate(c.ctors):
             tag(f, c.qname + "::" + c.name)
             f.overload = i
@@ -425,7 +534,10 @@ def emit_interface(p):
         if e.owner is None:
             units.append((e.ns, "enum", e))
     for c in p.classes:
-        units.append((c.ns, "class", c))
+        if getattr(c, "tpl", None) is None:
+            units.append((c.ns, "class", c))
+    for tp in p.templates:
+        units.append((tp.ns, "template", tp))
     for ns, f in p.functions:
         units.append((ns, "func", f))
     # classes must precede their uses only for C++; wrap does not care.  Keep model order per namespace.
@@ -444,6 +556,19 @@ def emit_interface(p):
                 lines.append("%senum %s { %s };" % (ind, u.name, ", ".join(u.values)))
             elif kind == "func":
                 lines.append("%s%s %s(%s);" % (ind, _iface_ret(u.ret), u.name, _iface_args(u.args)))
+            elif kind == "template":
+                lines.append("%stemplate<T = {%s}>" % (ind, ", ".join(i.iface() for i in u.insts)))
+                lines.append("%sclass %s {" % (ind, u.name))
+                for f in u.ctors:
+                    lines.append("%s  %s(%s);" % (ind, u.name, _iface_args(f.args)))
+                for f in u.methods:
+                    lines.append("%s  %s %s(%s)%s;" % (ind, _iface_ret(f.ret), f.name, _iface_args(f.args),
+                                                       " const" if f.const else ""))
+                for f in u.statics:
+                    lines.append("%s  static %s %s(%s);" % (ind, _iface_ret(f.ret), f.name, _iface_args(f.args)))
+                for pn, pt in u.props:
+                    lines.append("%s  %s %s;" % (ind, pt.iface(), pn))
+                lines.append(ind + "};")
             else:
                 c = u
                 head = ("virtual " if c.virtual else "") + "class " + c.name
@@ -480,6 +605,7 @@ LIB_PRELUDE = r'''// generated by /verif/gen/mexprog.py -- instrumented stand-in
 #include <sstream>
 #include <stdexcept>
 #include <string>
+#include <type_traits>
 #include <utility>
 #include <vector>
 #include <gtsam/base/Vector.h>
@@ -521,6 +647,11 @@ class Tracked {
 inline void born(const Tracked* t, const char* cls, bool) {
   S().live[t] = std::make_pair(t->serial, std::string(cls));
 }
+// a class-typed data member is an object of its own, owned by (and dying with) the enclosing object
+inline void owns(const Tracked* owner, const Tracked* member) {
+  Event e; e.entity = "own"; e.overload = 0; e.self = owner->serial;
+  e.args.push_back(std::to_string(member->serial)); S().trace.push_back(e);
+}
 inline std::string hexd(double d) { unsigned char b[8]; std::memcpy(b, &d, 8); static const char* h = "0123456789abcdef";
   std::string s; for (int i = 0; i < 8; ++i) { s.push_back(h[b[i] >> 4]); s.push_back(h[b[i] & 15]); } return s; }
 inline std::string enc(int v) { return "i:" + std::to_string(v); }
@@ -555,6 +686,20 @@ inline double ret_double() { return 0.25 + (double)tick(); }
 inline std::string ret_string() { return "r" + std::to_string(tick()); }
 inline gtsam::Vector ret_vector(int n) { gtsam::Vector v(n); for (int i = 0; i < n; ++i) v(i) = (double)tick() + 0.5; return v; }
 inline gtsam::Matrix ret_matrix() { gtsam::Matrix A(2, 3); for (int i = 0; i < 2; ++i) for (int j = 0; j < 3; ++j) A(i, j) = (double)tick() + 0.125; return A; }
+// generic helpers for class templates
+template <class U> struct TName;          // suffix gtwrap appends for an instantiation with U
+template <class U> typename std::enable_if<std::is_base_of<Tracked, U>::value, std::string>::type
+enc_any(const U& u) { return enc_obj(&u); }
+template <class U> typename std::enable_if<!std::is_base_of<Tracked, U>::value, std::string>::type
+enc_any(const U& u) { return enc(u); }
+template <class U, class Enable = void> struct RetAny;
+template <> struct RetAny<int> { static int make(std::string& r) { int v = ret_int(); r = enc(v); return v; } };
+template <> struct RetAny<double> { static double make(std::string& r) { double v = ret_double(); r = enc(v); return v; } };
+template <> struct RetAny<gtsam::Vector> { static gtsam::Vector make(std::string& r) { gtsam::Vector v = ret_vector(3); r = enc(v); return v; } };
+template <int N> struct RetAny<gtsam::FixedVector<N>> { static gtsam::FixedVector<N> make(std::string& r) {
+  gtsam::FixedVector<N> v = gtsam::FixedVector<N>(ret_vector(N)); r = enc(v); return v; } };
+template <class U> struct RetAny<U, typename std::enable_if<std::is_base_of<Tracked, U>::value>::type> {
+  static U make(std::string& r) { U rv{typename U::LibTag()}; r = enc_obj(&rv); return rv; } };
 template <class T> std::shared_ptr<T> ret_shared(const char* cls) {
   auto& pool = S().retained[cls];
   if (S().return_retained && !pool.empty()) return std::static_pointer_cast<T>(pool[tick() % pool.size()]);
@@ -569,6 +714,8 @@ template <class T> std::shared_ptr<T> ret_shared(const char* cls) {
 def _cpp_ret(r):
     if isinstance(r, tuple):
         return "std::pair<%s, %s>" % (_cpp_ret(r[1]), _cpp_ret(r[2]))
+    if r.kind == "this" and r.mode == "val":
+        return "%s<T>" % r.name
     if r.kind == "class" and r.mode == "val":
         return r.name
     return r.cpp()
@@ -580,6 +727,13 @@ def _ret_expr(r, e="e"):
         a = _ret_expr(r[1]).replace("rv", "rv1").replace("e.ret =", "e.ret = std::string(\"P1=\") +")
         b = _ret_expr(r[2]).replace("rv", "rv2").replace("e.ret =", "e.ret += std::string(\" P2=\") +")
         return a + " " + b + " auto rv = std::make_pair(rv1, rv2);"
+    if r.kind == "tparam":
+        return "T rv = lib::RetAny<T>::make(e.ret);"
+    if r.kind == "this":
+        if r.mode == "sptr":
+            return "std::shared_ptr<%s<T>> rv = lib::ret_shared<%s<T>>(cls().c_str()); e.ret = lib::enc_obj(rv.get());" % (
+                r.name, r.name)
+        return "%s<T> rv{LibTag()}; e.ret = lib::enc_obj(&rv);" % r.name
     if r.kind == "prim":
         if r.name == "void":
             return "e.ret = \"void\";"
@@ -601,6 +755,10 @@ def _ret_expr(r, e="e"):
 
 def _enc_arg(a):
     t = a.ty
+    if t.kind == "tparam":
+        return "lib::enc_any(%s)" % a.name
+    if t.kind == "this":
+        return "lib::enc_obj(%s.get())" % a.name if t.mode == "sptr" else "lib::enc_obj(&%s)" % a.name
     if t.kind == "class":
         if t.mode in ("sptr",):
             return "lib::enc_obj(%s.get())" % a.name
@@ -616,8 +774,8 @@ def _sig(args):
     return ", ".join("%s %s" % (a.ty.cpp(), a.name) for a in args)
 
 
-def _body(f, self_expr, ret):
-    s = "lib::Event e; lib::enter(e, \"%s\", %d, %s);" % (f.entity, f.overload, self_expr)
+def _body(f, self_expr, ret, entity_expr=None):
+    s = "lib::Event e; lib::enter(e, %s, %d, %s);" % (entity_expr or "\"%s\"" % f.entity, f.overload, self_expr)
     for a in f.args:
         s += " e.args.push_back(%s);" % _enc_arg(a)
     if ret is not None:
@@ -632,12 +790,26 @@ def emit_library(p):
     out = [LIB_PRELUDE]
     # forward declarations, namespace by namespace
     for c in p.classes:
-        out.append("".join("namespace %s { " % n for n in c.ns) + "class %s;" % c.name + " }" * len(c.ns))
+        if getattr(c, "tpl", None) is None:
+            out.append("".join("namespace %s { " % n for n in c.ns) + "class %s;" % c.name + " }" * len(c.ns))
+    for tp in p.templates:
+        out.append("".join("namespace %s { " % n for n in tp.ns) + "template <class T> class %s;" % tp.name +
+                   " }" * len(tp.ns))
+    seen_t = set()
+    for tp in p.templates:
+        for i in tp.insts:
+            cpp = i.name if i.kind != "eig" else "gtsam::" + i.name
+            if cpp not in seen_t:
+                seen_t.add(cpp)
+                out.append("namespace lib { template <> struct TName<%s> { static const char* v() { return \"%s\"; } }; }"
+                           % (cpp, inst_suffix(i)))
     for e in p.enums:
         if e.owner is None:
             out.append("".join("namespace %s { " % n for n in e.ns) +
                        "enum %s { %s };" % (e.name, ", ".join(e.values)) + " }" * len(e.ns))
     for c in p.classes:
+        if getattr(c, "tpl", None) is not None:
+            continue
         out.append("".join("namespace %s { " % n for n in c.ns))
         base = ("public %s" % c.parent) if c.parent else "public lib::Tracked"
         out.append("class %s : %s {" % (c.name, base))
@@ -646,16 +818,20 @@ def emit_library(p):
             out.append("  enum %s { %s };" % (e.name, ", ".join(e.values)))
         out.append("  struct LibTag {};")
         binit = ("%s(typename %s::LibTag())" % (c.parent, c.parent)) if c.parent else "lib::Tracked()"
-        out.append("  explicit %s(LibTag) : %s { lib::born(this, \"%s\", false); }" % (c.name, binit, c.qname))
+        own = "".join(" lib::owns(this, &%s);" % pn for pn, pt in c.props if pt.kind == "class")
+        minit = "".join(", %s(typename %s::LibTag())" % (pn, pt.name) for pn, pt in c.props if pt.kind == "class")
+        out.append("  explicit %s(LibTag) : %s%s { lib::born(this, \"%s\", false);%s }" %
+                   (c.name, binit, minit, c.qname, own))
         cbase = ("%s(o)" % c.parent) if c.parent else "lib::Tracked(o)"
         propcopy = "".join(", %s(o.%s)" % (pn, pn) for pn, _ in c.props)
-        out.append("  %s(const %s& o) : %s%s { lib::born(this, \"%s\", %s); }" %
-                   (c.name, c.name, cbase, propcopy, c.qname, "true"))
+        out.append("  %s(const %s& o) : %s%s { lib::born(this, \"%s\", %s);%s }" %
+                   (c.name, c.name, cbase, propcopy, c.qname, "true", own))
         out.append("  virtual ~%s() {}" % c.name)
         for f in c.ctors:
             binit2 = ("%s(typename %s::LibTag())" % (c.parent, c.parent)) if c.parent else "lib::Tracked()"
-            body = "lib::born(this, \"%s\", false); " % c.qname + _body(f, "this->serial", None)
-            out.append("  %s%s(%s) : %s { %s }" % ("explicit " if len(f.args) == 1 else "", c.name, _sig(f.args), binit2, body))
+            body = "lib::born(this, \"%s\", false);%s " % (c.qname, own) + _body(f, "this->serial", None)
+            out.append("  %s%s(%s) : %s%s { %s }" % ("explicit " if len(f.args) == 1 else "", c.name, _sig(f.args),
+                                                   binit2, minit, body))
         for f in c.methods:
             out.append("  %s %s(%s)%s { %s }" % (_cpp_ret(f.ret), f.name, _sig(f.args), " const" if f.const else "",
                                                  _body(f, "this->serial", f.ret)))
@@ -663,9 +839,38 @@ def emit_library(p):
             out.append("  static %s %s(%s) { %s }" % (_cpp_ret(f.ret), f.name, _sig(f.args), _body(f, "0", f.ret)))
         for pn, pt in c.props:
             init = {"int": " = 0", "double": " = 0.0", "bool": " = false", "size_t": " = 0"}.get(pt.name, "")
-            out.append("  %s %s%s;" % (pt.cpp(), pn, init))
+            if pt.kind == "class":
+                init = ""
+            out.append("  %s %s%s;" % (pt.name if pt.kind == "class" else pt.cpp(), pn, init))
         out.append("};")
         out.append("}" * len(c.ns))
+    for tp in p.templates:
+        out.append("".join("namespace %s { " % n for n in tp.ns))
+        out.append("template <class T> class %s : public lib::Tracked {" % tp.name)
+        out.append(" public:")
+        out.append("  struct LibTag {};")
+        out.append("  static std::string cls() { return std::string(\"%s\") + lib::TName<T>::v(); }" % tp.qname)
+        pinit = "".join(", %s()" % pn for pn, _ in tp.props)
+        pcopy = "".join(", %s(o.%s)" % (pn, pn) for pn, _ in tp.props)
+        out.append("  explicit %s(LibTag) : lib::Tracked()%s { lib::born(this, cls().c_str(), false); }" % (tp.name, pinit))
+        out.append("  %s(const %s& o) : lib::Tracked(o)%s { lib::born(this, cls().c_str(), true); }" % (tp.name, tp.name, pcopy))
+        out.append("  virtual ~%s() {}" % tp.name)
+        for f in tp.ctors:
+            ent = "(cls() + \"%s\").c_str()" % f.entity_suffix
+            body = "lib::born(this, cls().c_str(), false); " + _body(f, "this->serial", None, ent)
+            out.append("  %s%s(%s) : lib::Tracked()%s { %s }" % ("explicit " if len(f.args) == 1 else "", tp.name,
+                                                                _sig(f.args), pinit, body))
+        for f in tp.methods:
+            ent = "(cls() + \"%s\").c_str()" % f.entity_suffix
+            out.append("  %s %s(%s)%s { %s }" % (_cpp_ret(f.ret), f.name, _sig(f.args), " const" if f.const else "",
+                                                 _body(f, "this->serial", f.ret, ent)))
+        for f in tp.statics:
+            ent = "(cls() + \"%s\").c_str()" % f.entity_suffix
+            out.append("  static %s %s(%s) { %s }" % (_cpp_ret(f.ret), f.name, _sig(f.args), _body(f, "0", f.ret, ent)))
+        for pn, pt in tp.props:
+            out.append("  T %s;" % pn)
+        out.append("};")
+        out.append("}" * len(tp.ns))
     out.append("// a derived class re-registers itself under its own name: born() of the most derived runs last")
     for ns, f in p.functions:
         out.append("".join("namespace %s { " % n for n in ns))
